@@ -9,6 +9,15 @@ from mmsa import cfg as cfgmod, dataflow
 from mmsa.core import dotted, norm, walk_no_nested
 
 
+def module_consts(module):
+  """Module-level names bound once to a display of constants (tables such as _VALUE_COLUMNS = ['a', 'b'])."""
+  out = {}
+  for name, v in module.assigns.items():
+    if isinstance(v, (ast.Tuple, ast.List, ast.Set)) and all(isinstance(x, ast.Constant) for x in v.elts):
+      out[name] = v
+  return out
+
+
 class FuncCtx:
   """CFG + reaching definitions of one function, cached."""
   _cache = {}
@@ -18,6 +27,7 @@ class FuncCtx:
     self.g = cfgmod.CFG(f.node)
     self.g._funcinfo = f
     self.rd = dataflow.Reaching(self.g)
+    self.rd.consts = module_consts(f.module)
     self.stmt_of = {}
     for n in self.g.nodes:
       for e in self.node_exprs(n):
